@@ -17,11 +17,127 @@ enum Case {
     Long { cid: Cid, n: usize, s: usize },
     /// every sequence of length n starting with symbol `first`
     All { cid: Cid, n: usize, first: u8 },
+    /// user-defined maskable codecs of the built-in widths, then the built-in codecs, then both again
+    Foreign { n: usize },
 }
 
 const MASKED: [Cid; 2] = [Cid::MDna, Cid::MIupac];
 
+/// Two user-style maskable codecs of the same widths as the built-in ones, whose masking works differently
+/// (4-bit: mask sets bit 3, unmask clears it - idempotent, not a toggle; 5-bit: mask adds 4 to codes 1..=3).
+/// Anything the library caches per width rather than per codec shows when they and the built-in codecs are
+/// used in one process, in either order.
+#[allow(non_camel_case_types)]
+#[derive(Clone, Copy, Debug, PartialEq, Eq, Hash, bio_seq::codec::Codec)]
+#[bits(4)]
+#[repr(u8)]
+enum Mk4 {
+    W = 0b0000,
+    X = 0b0001,
+    Y = 0b0010,
+    Z = 0b0011,
+    w = 0b1000,
+    x = 0b1001,
+    y = 0b1010,
+    z = 0b1011,
+}
+
+impl bio_seq::MaskableMut for Mk4 {
+    fn mask(&mut self) {
+        *self = Mk4::unsafe_from_bits(self.to_bits() | 0b1000);
+    }
+    fn unmask(&mut self) {
+        *self = Mk4::unsafe_from_bits(self.to_bits() & 0b0111);
+    }
+}
+
+#[allow(non_camel_case_types)]
+#[derive(Clone, Copy, Debug, PartialEq, Eq, Hash, bio_seq::codec::Codec)]
+#[bits(5)]
+#[repr(u8)]
+enum Mk5 {
+    P = 1,
+    Q = 2,
+    R = 3,
+    p = 5,
+    q = 6,
+    r = 7,
+    #[display('-')]
+    Gap = 16,
+}
+
+impl bio_seq::MaskableMut for Mk5 {
+    fn mask(&mut self) {
+        let b = self.to_bits();
+        if (1..=3).contains(&b) {
+            *self = Mk5::unsafe_from_bits(b + 4);
+        }
+    }
+    fn unmask(&mut self) {
+        let b = self.to_bits();
+        if (5..=7).contains(&b) {
+            *self = Mk5::unsafe_from_bits(b - 4);
+        }
+    }
+}
+
+/// sequence-level masking of a user-defined maskable codec against its own symbol-level masking, position-wise
+fn foreign_one<A: Codec + bio_seq::MaskableMut + PartialEq + std::fmt::Debug>(name: &str, n: usize, salt: usize, out: &mut Out)
+where
+    Seq<A>: bio_seq::MaskableMut + bio_seq::Maskable + ToOwned<Owned = Seq<A>>,
+{
+    use bio_seq::{Maskable, MaskableMut};
+    let al: Vec<A> = A::items().collect();
+    let content: Vec<A> = (0..n).map(|i| al[(i * 7 + i / 3 + salt) % al.len()]).collect();
+    let seq: Seq<A> = content.iter().copied().collect();
+    out.units += 1;
+    for unmask in [false, true] {
+        let opn = if unmask { "unmask" } else { "mask" };
+        let want: Vec<A> = content
+            .iter()
+            .map(|a| {
+                let mut x = *a;
+                if unmask {
+                    x.unmask()
+                } else {
+                    x.mask()
+                }
+                x
+            })
+            .collect();
+        out.stage = "user-defined maskable codec: to_mask/to_unmask";
+        let got = out.catch(|| if unmask { seq.to_unmask() } else { seq.to_mask() });
+        let ok = matches!(&got, Ok(g) if g.iter().collect::<Vec<A>>() == want);
+        out.check(ok, || {
+            (
+                format!("custom::{name}/seq.to_{opn}/not-position-wise"),
+                format!("to_{opn} of {} = {:?}, the symbols' own {opn} gives {:?}", seq, got.as_ref().map(|g| g.to_string()), want.iter().map(|a| a.to_char()).collect::<String>()),
+            )
+        });
+        out.stage = "user-defined maskable codec: in-place mask/unmask";
+        let got = out.catch(|| {
+            let mut c = seq.clone();
+            if unmask {
+                c.unmask()
+            } else {
+                c.mask()
+            }
+            c
+        });
+        let ok = matches!(&got, Ok(g) if g.iter().collect::<Vec<A>>() == want && g.len() == n);
+        out.check(ok, || {
+            (
+                format!("custom::{name}/clone.{opn}/not-position-wise"),
+                format!("{opn} in place of {} = {:?}, the symbols' own {opn} gives {:?}", seq, got.as_ref().map(|g| g.to_string()), want.iter().map(|a| a.to_char()).collect::<String>()),
+            )
+        });
+    }
+}
+
 fn gen(t: Tier, _seed: u64, emit: &mut dyn FnMut(Case)) {
+    for n in 0..=40 {
+        emit(Case::Foreign { n });
+    }
     for cid in MASKED {
         let m = spec::spec(cid).syms.len();
         for i in 0..m + 1 {
@@ -57,6 +173,17 @@ fn gen(t: Tier, _seed: u64, emit: &mut dyn FnMut(Case)) {
 
 fn run(c: &Case, out: &mut Out) {
     match c {
+        Case::Foreign { n } => {
+            for round in 0..2 {
+                foreign_one::<Mk4>("Mk4", *n, round, out);
+                foreign_one::<Mk5>("Mk5", *n, round, out);
+                let m = alphabet::<MDna>().len();
+                seq_one::<MDna>(&spec::spec(Cid::MDna), &syms::<MDna>(&bg(*n, m, 77 + round as u64, out.seed)), round, out);
+                let m = alphabet::<MIupac>().len();
+                seq_one::<MIupac>(&spec::spec(Cid::MIupac), &syms::<MIupac>(&bg(*n, m, 78 + round as u64, out.seed)), round, out);
+            }
+            out.observe(&("foreign", *n));
+        }
         Case::Sym { cid, .. } | Case::Shaped { cid, .. } | Case::All { cid, .. } | Case::Long { cid, .. } => match cid {
             Cid::MDna => run_g::<MDna>(c, out),
             Cid::MIupac => run_g::<MIupac>(c, out),
@@ -254,6 +381,7 @@ fn run_g<A: Sx>(c: &Case, out: &mut Out) {
     let sp = spec::spec(A::CID);
     let m = alphabet::<A>().len();
     match c {
+        Case::Foreign { .. } => unreachable!(),
         Case::Sym { i, .. } => sym_case::<A>(*i, out),
         Case::Long { n, s, .. } => {
             for variant in 0..(if *n > 1100 { 1 } else { 2 }) {
@@ -280,9 +408,32 @@ fn run_g<A: Sx>(c: &Case, out: &mut Out) {
 }
 
 fn main() {
+    // which maskable codec a process touches first (the driver runs the binary once per order)
+    match bsv::run::opt("first").as_deref() {
+        Some("custom") => {
+            use bio_seq::MaskableMut;
+            let mut a: Seq<Mk4> = "WXyz".try_into().unwrap();
+            a.mask();
+            a.unmask();
+            let mut b: Seq<Mk5> = "PQr-".try_into().unwrap();
+            b.mask();
+            b.unmask();
+        }
+        Some("builtin") => {
+            use bio_seq::MaskableMut;
+            let mut a: Seq<MDna> = "ACgt".try_into().unwrap();
+            a.mask();
+            a.unmask();
+            let mut b: Seq<MIupac> = "ACry".try_into().unwrap();
+            b.mask();
+            b.unmask();
+        }
+        _ => {}
+    }
     main_loop("C20", gen, run, |_| {
         json!({
-            "codecs": ["masked::Dna (4-bit)", "masked::Iupac (5-bit)"],
+            "codecs": ["masked::Dna (4-bit)", "masked::Iupac (5-bit)", "two harness-defined maskable codecs of the same widths (used before / after the built-in ones in the same process)"],
+            "first_touch": bsv::run::opt("first"),
             "oracle": "spec tables: upper/lower twins, '-' <-> '.' in the 5-bit codec, gap and pad fixed in the 4-bit codec; '?' and '!' of the 4-bit codec are left open by the property and only required not to panic",
             "forms": ["symbol mask/unmask", "Seq::to_mask/to_unmask", "in-place mask/unmask on clones (fresh and offset-copied)", "twice", "unmask∘mask", "commutation with to_rev/to_comp/to_revcomp (5-bit)"],
         })
